@@ -845,6 +845,10 @@ def run(chk):
     chk.guard(gens.apply, chk, "C10-R8", {"series"}, 5, "a generator of periods or variants consumed twice leaves later variants / later passes without data")
     from .. import unused as _unused
     chk.guard(_unused.apply, chk, "C10-R91")
+    from .. import recon as _recon
+    chk.guard(_recon.apply, chk, "C10-R11", {"dates", "series", "databoxes"})
+    from .. import endpoints as _endpoints
+    chk.guard(_endpoints.apply, chk, "C10-R10", {"dates", "series", "databoxes"})
     from .. import args as _args
     chk.guard(_args.apply, chk, "C10-R90", {'series'}, 1)
     chk.assumptions = [
